@@ -165,13 +165,15 @@ RegionNode(N, rid) == IF \E x \in RegionNodes(N) : N[x].rid = rid
                       THEN CHOOSE x \in RegionNodes(N) : N[x].rid = rid ELSE 0
 
 \* a text leaf is shown at t iff it is active (hence all its ancestors are) and its region exists and is active
-XmlVisible(N, iv, x, t) ==
+XmlShown(N, iv, x, t) ==
   /\ N[x].kind = "text"
-  /\ N[x].tag # " "         \* white space alone (generated only under xml:space="default") presents nothing - its TIMING counts
   /\ Active(iv, x, t)
   /\ LET r == RegionOf(N, x)
      IN  \/ r = "" /\ RegionNodes(N) = {}
          \/ r # "none" /\ r # "" /\ RegionNode(N, r) # 0 /\ Active(iv, RegionNode(N, r), t)
+\* white space alone presents nothing under xml:space="default" (the design-level family has no xml:space) - its TIMING
+\* counts; under xml:space="preserve" it is presented like any other text (Trace_Imsc: TVisible)
+XmlVisible(N, iv, x, t) == XmlShown(N, iv, x, t) /\ N[x].tag # " "
 
 -----------------------------------------------------------------------------
 (* 4. Styling (TTML2 sec. 10.4.4.2 specified style set): referential styling in the order of the style attribute
